@@ -149,7 +149,9 @@ class CachedGuardStream(Stream):
             classes = []
             seen = {}
             for q in inqs:
-                k = repr(q)
+                # Inquiry.__init__ replaces falsy attributes by '' and a falsy context by {}: content is what is left
+                k = repr([specs.jv(specs.py(q[f]) or '') for f in ('resource', 'action', 'subject')] +
+                         [specs.jv(specs.py(q['context']) or {})])
                 if k not in seen:
                     seen[k] = len(seen)
                 classes.append(seen[k])
